@@ -132,7 +132,12 @@ Qed.
 End One.
 
 (* the real leaf encoder only raises the library's exceptions *)
-Lemma leaf_enc_safe v lvl e dt s : sp TT (leaf_enc v lvl e dt s).
+Lemma hl7_only_hl7 c : hl7_only (HL7 c).
+Proof. exact I. Qed.
+Lemma hl7_or_value_hl7 lvl c : hl7_or_value lvl (HL7 c).
+Proof. exact I. Qed.
+
+Lemma leaf_enc_safe v lvl e dt s : sp hl7_only TT (leaf_enc v lvl e dt s).
 Proof.
   unfold leaf_enc. destruct dt as [d|]; [|exact I]. destruct (dt_row v d) as [[k mx]|]; [|exact I].
   destruct k; try exact I; destruct (is_strict lvl && too_long mx s); exact I.
@@ -156,29 +161,41 @@ Proof.
   split; [exact (comps_ref_ok t Hrep F Hc)|exact (segs_good t Hrep F)].
 Qed.
 
-(* C15 at the segment level, every shipped version *)
+(* C15 at the segment level, every shipped version, ANY leaf function: the outcome of
+   parse_segment is a Segment that can be encoded, one of the library's exceptions, or an exception
+   the leaf function itself raised (Adm) *)
+Theorem shipped_parse_segment_safe_gen (Adm : exn -> Prop) v t lvl e leaf text :
+  (forall c, Adm (HL7 c)) -> (forall dt s, sp Adm TT (leaf dt s)) -> tables_of v = Some t ->
+  sp Adm (fun s => forall e' trailing, exists x, enc_segment t e' s trailing = Ok x)
+     (parse_segment t lvl e leaf text None).
+Proof.
+  intros HA Hl Ht. destruct (shipped_premises v t Ht) as [H1 [H2 [H3 H4]]].
+  apply (parse_segment_safe Adm HA t H1 H2 H3 H4 lvl e leaf Hl).
+Qed.
+
 Theorem shipped_parse_segment_safe v t lvl e text : tables_of v = Some t ->
-  sp (fun s => forall e' trailing, exists x, enc_segment t e' s trailing = Ok x)
+  sp hl7_only (fun s => forall e' trailing, exists x, enc_segment t e' s trailing = Ok x)
      (parse_segment t lvl e (leaf_enc v lvl e) text None).
 Proof.
-  intros Ht. destruct (shipped_premises v t Ht) as [H1 [H2 [H3 H4]]].
-  apply (parse_segment_safe t H1 H2 H3 H4 lvl e (leaf_enc v lvl e) (leaf_enc_safe v lvl e)).
+  intros Ht. exact (shipped_parse_segment_safe_gen hl7_only v t lvl e _ text hl7_only_hl7 (leaf_enc_safe v lvl e) Ht).
 Qed.
 
 (* parse_field / parse_component called directly (standard references) *)
-Theorem shipped_parse_field_safe v t lvl e text name fv : tables_of v = Some t ->
-  sp (fun f => forall e', exists x, enc_field t e' f = Ok x)
-     (parse_field t lvl e (leaf_enc v lvl e) text name None fv).
+Theorem shipped_parse_field_safe_gen (Adm : exn -> Prop) v t lvl e leaf text name fv :
+  (forall c, Adm (HL7 c)) -> (forall dt s, sp Adm TT (leaf dt s)) -> tables_of v = Some t ->
+  sp Adm (fun f => forall e', exists x, enc_field t e' f = Ok x)
+     (parse_field t lvl e leaf text name None fv).
 Proof.
-  intros Ht. destruct (shipped_premises v t Ht) as [H1 [H2 [H3 _]]].
-  eapply sp_weaken; [|apply (parse_field_safe t H1 H2 H3 lvl e (leaf_enc v lvl e) (leaf_enc_safe v lvl e) text name None fv I)].
+  intros HA Hl Ht. destruct (shipped_premises v t Ht) as [H1 [H2 [H3 _]]].
+  eapply sp_weaken; [|apply (parse_field_safe Adm HA t H1 H2 H3 lvl e leaf Hl text name None fv I)].
   intros f [_ H]. exact H.
 Qed.
 
-Theorem shipped_parse_component_safe v t lvl e text name datatype : tables_of v = Some t ->
+Theorem shipped_parse_component_safe_gen (Adm : exn -> Prop) v t lvl e leaf text name datatype :
+  (forall c, Adm (HL7 c)) -> (forall dt s, sp Adm TT (leaf dt s)) -> tables_of v = Some t ->
   datatype = None \/ base t datatype = true ->
-  sp TT (parse_component t lvl e (leaf_enc v lvl e) text name datatype None).
+  sp Adm TT (parse_component t lvl e leaf text name datatype None).
 Proof.
-  intros Ht Hd. destruct (shipped_premises v t Ht) as [H1 [H2 [H3 _]]].
-  apply (parse_component_safe t H1 H2 H3 lvl e (leaf_enc v lvl e) (leaf_enc_safe v lvl e) text name datatype None Hd I).
+  intros HA Hl Ht Hd. destruct (shipped_premises v t Ht) as [H1 [H2 [H3 _]]].
+  apply (parse_component_safe Adm HA t H1 H2 H3 lvl e leaf Hl text name datatype None Hd I).
 Qed.
